@@ -241,6 +241,11 @@ static void body_harness_number(const int KIND) {  /* 0 long 1 unsigned long 2 l
   h_init(); IN_U64(e); IN_U64(a);
   const int is_signed = KIND == 0 || KIND == 2 || KIND == 4;
   if (KIND == 4) { e = (uint64_t)(int64_t)(int8_t)e; a = (uint64_t)(int64_t)(int8_t)a; }
+#ifdef NUMMAX
+  /* magnitudes up to NUMMAX (full 64-bit operands do not finish: the texts have up to 20 + 16 digits each) */
+  if (is_signed) ASSUME((int64_t)e >= -(int64_t)NUMMAX && (int64_t)e <= (int64_t)NUMMAX && (int64_t)a >= -(int64_t)NUMMAX && (int64_t)a <= (int64_t)NUMMAX);
+  else ASSUME(e <= NUMMAX && a <= NUMMAX);
+#endif
   nrec = 0;
   uint8_t out[OUTCAP] = {0};
   uint64_t n = h_msg_number(KIND, e, a, out, OUTCAP);
